@@ -725,7 +725,7 @@ def python_snippet(case):
 LEVEL_TEXT = ('Machine-checked Coq theorems for EVERY byte string (not only the alphabet): complement is position-wise with one symbol map '
               'chosen by the single flag "U in data" (C05_complement_every_string, C05_rna_symbol_map), the table is the identity outside the 17 '
               'symbols and an involution on all 256 code points (C05_table_every_byte), set-level IUPAC/Watson-Crick semantics for the DNA and '
-              'the RNA alphabet (C05_complement_table_sound, _rna), rc = reverse;complement = complement;reverse, length and GC counts preserved, '
+              'the RNA alphabet (C05_complement_table_sound, _rna), rc = reverse;complement = complement;reverse, length and GC counts preserved (C05_gc_rc; C05_gc_meaning: G, C over A, C, G, T, U - S and the other codes are ignored), '
               'complement/rc applied twice: exact result and exact region of the involution (C05_twice, C05_involution_iff: iff no U, or U with an A '
               'and no T), RNA = DNA conjugated by T<->U (C05_rna_up_to_U, C05_rna_square, C05_tu_bijection, C05_t2u_square_iff), mixed T/U strings '
               '(C05_mixed_TU), rc position by position (C05_rc_positionwise), concatenation/slices commute with complement exactly when the U flag agrees or the U-free piece has no A (C05_complement_app), closed alphabets (C05_closed_alphabets), constructor upper-casing (C05_constructor); the derivation of COMPLEMENT_ALL/COMPLEMENT_TRANS from CODES is a Gallina '
